@@ -3,15 +3,15 @@ CONSTANTS
   Construct = "map"
   MaxN = 3
   MaxK = 2
-  FKinds = {"err"}
+  FKinds = {"panicW_SKIP"}
   MaxFaults = 1
-  OptSet <- OptsCore
+  OptSet <- OptsAbort
   AbortCancels = TRUE
   GenChecksCtx = TRUE
   GenEofByIs = FALSE
   ResolverSame = TRUE
   ExcludedConsulted = TRUE
-  Mut = "swap"
+  Mut = "sentinelfirst"
 INVARIANTS TypeOK NothingSwallowed NeverReported NilIffNoFailure AtMostOnce ContinueAll AbortedWorkerStops AbortBound NoStall AllDone
 PROPERTIES Settles
 CHECK_DEADLOCK FALSE
